@@ -6,7 +6,7 @@ from vlib import Violation, qc, coq_list
 from props.c11 import qc_nested, rand_field, affine_field, b, _flat
 
 ID = "C13"
-GEN_UNITS = ["FlowAlg", "FlowDeriv"]
+GEN_UNITS = ["FlowAlg", "FlowBCH", "FlowDeriv"]
 PROPS_FILE = "Props/C13.v"
 PROPS_MOD = "Props.C13"
 COQ_TARGETS = ["Props/C13.vo"]
@@ -25,7 +25,7 @@ ASSUMPTIONS = [
 ]
 HEADER = ["From Coq Require Import ZArith QArith Qcanon List String.",
           "From DV Require Import Base.Field Base.LinAlg Base.QcInst Base.QcCmp Model.Sampler Model.SamplerQc Model.Flow Model.FlowQc "
-          "Model.BCH Gen.FlowAlg Gen.FlowDeriv.",
+          "Model.BCH Gen.FlowAlg Gen.FlowBCH Gen.FlowDeriv.",
           "Import ListNotations.",
           "Definition tol64 : Q := 1 # 100000000000.", "Definition tol32 : Q := 1 # 100000.", "Definition tolL : Q := 1 # 1000000000.",
           "Definition benv (u v vu vvu uvu uvvu : list Qc) (t : bterm) : list Qc :=",
@@ -43,7 +43,7 @@ def flat(x):
 def gen_cases(ctx):
     rng = ctx.rng
     cases = []
-    for i in range(ctx.n(60, 360)):
+    for i in range(ctx.n(60, 240)):
         D = 2 if rng.random() < 0.6 else 3
         shape = tuple(rng.randint(2, 5 if D == 2 else 3) for _ in range(D))
         kind = ["compose", "compose", "lie", "bch"][i % 4]
@@ -138,7 +138,7 @@ def correspondence(ctx):
 
 
 def search(ctx, broken, corr_failures):
-    n = ctx.n(60, 600)
+    n = ctx.n(60, 360)
     r = vlib.run_impl("c13_impl", {"fn": "oracle", "seed": ctx.seed, "n": n})
     ctx.notes.append("implementation-side property evaluation (affine exactness with exact rationals, zero identities, batches, bilinearity / "
                      "antisymmetry / analytic value of lie_bracket, BCH series and commuting case per bch_terms; numeric exploration -- labelled "
